@@ -532,3 +532,61 @@ func FuzzDeque(f *testing.F) {
 	f.Add([]byte{0, 0, 0, 0, 0, 0, 0, 0, 2, 0, 0, 0, 0, 0, 0, 0})
 	f.Fuzz(rapid.MakeFuzz(propRandom))
 }
+
+// Part "large-backlog": the same model comparison over histories made of long runs - hundreds of
+// insertions, hundreds of removals from either end, pool maintenance in between - so that the backlog (and
+// with it the queue's recycling of nodes) goes far beyond what the short random histories reach, up and down
+// several times.
+func propLargeBacklog(t *rapid.T) {
+	inserts := []int{opOffer, opUnshift, opPut, opPush, opQOffer, opSPush}
+	removals := []int{opShift, opPop, opPoll, opTake, opQPoll, opSPop}
+	var h []op
+	runs := rapid.IntRange(3, 9).Draw(t, "runs")
+	for r := 0; r < runs; r++ {
+		n := rapid.SampledFrom([]int{20, 100, 257, 300, 400, 600, 900}).Draw(t, "len")
+		var kinds []int
+		switch rapid.IntRange(0, 4).Draw(t, "what") {
+		case 0, 1:
+			kinds = []int{rapid.SampledFrom(inserts).Draw(t, "ins")}
+		case 2, 3:
+			kinds = []int{rapid.SampledFrom(removals).Draw(t, "rem")}
+		default:
+			kinds = []int{rapid.SampledFrom(inserts).Draw(t, "ins"), rapid.SampledFrom(removals).Draw(t, "rem"), rapid.SampledFrom(removals).Draw(t, "rem2")}
+		}
+		for i := 0; i < n; i++ {
+			h = append(h, op{Kind: kinds[i%len(kinds)]})
+		}
+		switch rapid.IntRange(0, 5).Draw(t, "pool") {
+		case 0:
+			h = append(h, op{Kind: opKeep, Arg: rapid.SampledFrom([]int{0, 1, 5, 300}).Draw(t, "keep")})
+		case 1:
+			h = append(h, op{Kind: opClearNodePool})
+		case 2:
+			h = append(h, op{Kind: opPeek}, op{Kind: opCount})
+		}
+	}
+	dm := rapid.IntRange(0, 2).Draw(t, "drain")
+	s := vlib.S()
+	s.Eval("large-backlog")
+	o := runHistory(h, convInt, dm)
+	if o.nontrivial {
+		s.NonTrivial("large-backlog", fmt.Sprintf("%d ops, %d runs, %x", len(h), runs, fnv32(histString(h))))
+	}
+	if o.failKey != "" {
+		if vlib.Fail(t, o.failKey, "history of %d operations in %d runs, drain=%d: %s", len(h), runs, dm, o.failMsg) {
+			t.Skip("known finding")
+		}
+	}
+}
+
+func TestLargeBacklog(t *testing.T) {
+	vlib.Check(t, "large-backlog", 150, 3000, propLargeBacklog)
+}
+
+func fnv32(str string) uint32 {
+	h := uint32(2166136261)
+	for i := 0; i < len(str); i++ {
+		h = (h ^ uint32(str[i])) * 16777619
+	}
+	return h
+}
